@@ -18,8 +18,9 @@ TRANSLATOR = {
     'C04': "find_token, find_token_reverse, try_find_line, try_find_line_with_date, __getitem__",
     'C11': "find_token, find_token_reverse, try_find_line, try_find_line_with_date, __getitem__",
     'C13': "find_token, find_token_reverse, try_find_line, try_find_line_with_date, __getitem__",
+    'C06': "ResultStoreParallel.preallocate (its sequential meaning)",
     'C07': "SearchConstraintsManager.apply_single",
-    'C15': "allocations, _allocate_next, _add_to_store",
+    'C15': "allocations, _allocate_next, _add_to_store, preallocate",
     'C16': "the window part of __init__ + since_date, _line_date_is_valid, apply_to_line",
     'C18': "num_parallel_tasks",
 }
@@ -271,7 +272,7 @@ def main():
             'serves_properties': [c['property_id'] for c in checks],
             'kind_free_text': "hand-written executable Lean 4 model + kernel-checked theorems; "
                               "differential correspondence check of the model against /repo; "
-                              "for thirteen functions also a Python-to-Lean translator whose output "
+                              "for fourteen functions also a Python-to-Lean translator whose output "
                               "is proved equal to the model (bridge theorems)",
         }],
         'checks': checks,
